@@ -21,7 +21,9 @@ PID = "C07"
 RULE = ("histories over 24 event symbols x 1..3 connections (conn 0 optionally outbound): handshakes, "
         "good requests, requests with a missing required AVP / unknown command / unknown application / "
         "foreign realm / no Destination-Realm, T-flagged repeats, answers nobody waits for, answers "
-        "lacking Origin-Host or Result-Code (CEA, DWA, DPA, application), node-originated requests with "
+        "lacking Origin-Host or Result-Code (CEA, DWA, DPA, application), requests held by the application and "
+        "answered later (also after the connection was lost and re-established, with the peer spelling its "
+        "identity in another case), node-originated requests with "
         "good/defective replies, DWR/DPR, clock advances; all sequences to depth 3 on a ready connection "
         "are enumerated, deeper ones (to 14) drawn by Hypothesis. Non-trivial: the history contains a "
         "defective answer or a request that takes an error path; distinct by script.")
@@ -33,7 +35,7 @@ ASSUME = ["identifier values 0 and 2^32-1 are valid and are used (each special k
 SYMS = ["HS", "REQ", "REQ_missing", "REQ_unknown_cmd", "REQ_unknown_app", "REQ_foreign_realm", "REQ_no_realm",
         "REQ_T", "REQ_raise", "ANS_stray", "ANS_no_origin", "ANS_no_result", "CEA_no_origin", "CEA_stray",
         "DWA_stray", "DWA_no_origin", "DPA_stray", "DPA_no_result", "DWR", "DPR", "NODE_REQ", "NODE_REQ_ANS",
-        "ADV2", "ADV_IDLE"]
+        "ADV2", "ADV_IDLE", "REQ_hold", "SUBMIT", "RECONNECT"]
 DEFECTIVE = {"ANS_stray", "ANS_no_origin", "ANS_no_result", "CEA_no_origin", "CEA_stray", "DWA_stray",
              "DWA_no_origin", "DPA_stray", "DPA_no_result", "REQ_missing", "REQ_unknown_cmd", "REQ_unknown_app",
              "REQ_foreign_realm", "REQ_no_realm", "REQ_raise", "REQ_T"}
@@ -42,7 +44,7 @@ DEFECTIVE = {"ANS_stray", "ANS_no_origin", "ANS_no_result", "CEA_no_origin", "CE
 def world_cfg(case):
     out0 = case.get("out0", False)
     peers = [{"name": f"peer{i + 1}.example", "ip": [f"10.1.1.{i + 1}"],
-              "persistent": bool(out0 and i == 0)} for i in range(3)]
+              "persistent": bool(out0 and i == 0), "reconnect_wait": 1} for i in range(3)]
     apps = [{"app_id": 4, "auth": True, "peers": [0, 1, 2], "kind": case.get("app_kind", "basic"),
              "handler_plan": ["answer", "answer", "raise", "answer"] if case.get("app_kind") != "threading" else None,
              "handler": "answer"}]
@@ -70,6 +72,18 @@ def evaluate(case) -> Result:
             c = w.accept(f"10.1.1.{len(conns) + 1}")
             conns.append(c)
         hs = [False] * nconn
+        names = {i: f"peer{i + 1}.example" for i in range(3)}
+        if case.get("out0"):
+            names[0] = case.get("name0", "peer1.example")    # the peer's own spelling of its identity (case-insensitive)
+        held = []
+        hold_ids = set()
+        base_beh = w.apps[0]._verif_cfg.get("handler_plan")
+
+        def beh(rec_):
+            if rec_["hbh"] in hold_ids:
+                return "hold"
+            return None
+        w.behaviour_fn = beh
         last_req = {}
         pending_node_req = {}
         used_special = set()
@@ -79,7 +93,7 @@ def evaluate(case) -> Result:
             if ci >= nconn or conns[ci] is None:
                 continue
             c = conns[ci]
-            host = f"peer{ci + 1}.example"
+            host = names[ci]
             i = nid()
             base = {"hbh": i, "e2e": i, "host": host}
             if idmode and (ci, s, idmode) not in used_special and s not in ("HS", "NODE_REQ", "NODE_REQ_ANS", "REQ_T"):
@@ -162,6 +176,31 @@ def evaluate(case) -> Result:
                 if reqs:
                     f = reqs[-1]
                     w.feed_msg(c, {"k": "ANS", "host": host, "hbh": f.h["hbh"], "e2e": f.h["e2e"]})
+            elif s == "REQ_hold":
+                hold_ids.add(i)
+                n_seen = len(w.requests_seen)
+                w.feed_msg(c, dict(base, k="REQ"))
+                w.run()
+                held += [r for r in w.requests_seen[n_seen:] if r["hbh"] == base["hbh"]]
+            elif s == "SUBMIT":
+                if held:
+                    w.submit_answer(held.pop(0))
+            elif s == "RECONNECT":
+                if not hs[ci] or c.node_closed:
+                    continue
+                w.peer_close(c)
+                if c.remote.direction == "out":
+                    newc = None
+                    for _ in range(4):
+                        w.advance(1)
+                        cands = [x for x in w.conns if x.remote.direction == "out" and not x.node_closed and not x.peer_closed and x.host is None]
+                        if cands:
+                            newc = cands[-1]
+                            w.answer_cer(newc, 2001, auth=(4,), host=host)
+                            break
+                    conns[ci] = newc
+                else:
+                    conns[ci] = w.handshake_in(host, auth=[4], ip=f"10.1.1.{ci + 1}", hbh=nid())
             elif s == "ADV2":
                 w.advance(2)
             elif s == "ADV_IDLE":
@@ -201,6 +240,11 @@ def shard_main(shard, nshards, tier, scale):
                         jobs.append({"nconn": 1, "out0": out0, "events": [[0, "HS"], [0, seq[0], m]]})
                 if d <= 2:      # also before the handshake
                     jobs.append({"nconn": 1, "out0": out0, "events": [[0, s] for s in seq] + [[0, "HS"], [0, "REQ"]]})
+    for out0 in (False, True):
+        for name0 in ("peer1.example", "Peer1.Example"):
+            for mid in ([], [[0, "REQ"]], [[0, "DWR"]]):
+                jobs.append({"nconn": 1, "out0": out0, "name0": name0,
+                             "events": [[0, "HS"], [0, "REQ_hold"]] + mid + [[0, "RECONNECT"], [0, "SUBMIT"], [0, "REQ"]]})
     if shard == 0:
         rec.extra["enumerated_histories"] = len(jobs)
     for case in jobs[shard::nshards]:
@@ -216,6 +260,7 @@ def shard_main(shard, nshards, tier, scale):
                                      st.sampled_from([None, None, None, "zero-hbh", "zero-e2e", "both-zero", "max"])),
                            min_size=1, max_size=14))
         return {"nconn": nconn, "out0": draw(st.booleans()), "app_kind": draw(st.sampled_from(["basic", "threading"])),
+                "name0": draw(st.sampled_from(["peer1.example", "Peer1.Example", "PEER1.example"])),
                 "seed": draw(st.integers(0, 7)), "yield_all": draw(st.booleans()),
                 "events": [[c, s, m] for c, s, m in ev]}
 
